@@ -1,2 +1,33 @@
-(* Props/C04.v *)
+(* Props/C04.v — property C04 (condition / spend cost part): statements only. *)
 From ChiaV.Base Require Import Bytes.
+From ChiaV.Clvm Require Import Sexp Ints.
+From ChiaV.Gen Require Import Opcodes.
+From ChiaV.Cond Require Import Model Spec Facts Invariants CostFacts.
+Open Scope N_scope.
+
+(* the cost constants translated from opcodes.rs on this run are the consensus cost table *)
+Theorem C04_cost_constants_are_consensus :
+  AGG_SIG_COST = Spec.AGG_SIG_COST /\ CREATE_COIN_COST = Spec.CREATE_COIN_COST /\
+  NEW_CREATE_COIN_COST = Spec.NEW_CREATE_COIN_COST /\ SPEND_COST = Spec.SPEND_COST /\
+  MESSAGE_CONDITION_COST = Spec.MESSAGE_CONDITION_COST /\ GENERIC_CONDITION_COST = Spec.GENERIC_CONDITION_COST.
+Proof. exact cost_constants_are_consensus. Qed.
+
+(* two-byte opcodes: the transcription of calculate_cost_table (source text tied by the translator)
+   yields the 256 consensus values; finite, by computation *)
+Theorem C04_two_byte_cost_table : COSTS = Spec.two_byte_costs.
+Proof. exact cost_table_is_consensus. Qed.
+
+Theorem C04_unknown_condition_cost : forall op,
+  compute_unknown_condition_cost op = if op <? 256 then 0 else nth (N.to_nat (op mod 256)) Spec.two_byte_costs 0.
+Proof. exact unknown_cost_spec. Qed.
+
+(* accounting: for every accepted result of parse_spends, reported cost = condition cost = sum of the
+   per-spend condition costs, and it never exceeds the limit it was given *)
+Theorem C04_cost_accounting : forall vk H K fl V t max_cost clvm_cost b spends pairs,
+  parse_spends vk H K fl V t max_cost clvm_cost = Ok (b, spends, pairs) ->
+  b_cost b = b_cond_cost b /\ b_cond_cost b = sumN (map sp_cond_cost spends) /\ b_cost b <= max_cost.
+Proof. exact cost_accounting. Qed.
+
+(* C04_limit_exact (validation at limit = cost succeeds identically, at any smaller limit fails with
+   CostExceeded) is not proved yet: it is checked on the implementation and on the model for every
+   accepted case of the stream (cond.cost.limit). *)
